@@ -32,6 +32,7 @@ import re
 from pathlib import Path
 
 from src.core.base import BaseLintContext, MultiLanguageLintRule
+from src.core.constants import split_lines
 from src.core.linter_utils import load_linter_config
 from src.core.types import Violation
 
@@ -437,7 +438,7 @@ class MethodPropertyRule(MultiLanguageLintRule):  # thailint: ignore[srp,dry]
         if not context.file_content:
             return None
 
-        lines = context.file_content.splitlines()
+        lines = split_lines(context.file_content)
         if line <= 0 or line > len(lines):
             return None
 
